@@ -125,9 +125,9 @@ def log_date(d, f):
     return "%02d.%02d.%04d" % (d.month, d.day, d.year)
 
 
-def read_table():
+def read_table(path=None):
     rows = []
-    for i, ln in enumerate(open(os.path.join(REPO, "examples", "parameter", "FERTILIZ.TXT"))):
+    for i, ln in enumerate(open(path or os.path.join(REPO, "examples", "parameter", "FERTILIZ.TXT"))):
         t = ln.split()
         if i == 0 or len(t) < 7:
             continue
@@ -411,10 +411,15 @@ def write_project(ex, case):
     assert cfg2 != cfg or "Fertilization: 100" in cfg
     open(cfgp, "w").write(cfg2)
     case["sweep"] = sweep_of(case["layout_seed"] + 123)
+    # management event output on, off or not mentioned (the program default is off): the events must be carried out either way
+    case["me"] = case.get("me") or random.Random(case["layout_seed"] + 5).choice(["1", "1", "1", "0", "absent"])
     return apply_sweep("project=%s WeatherFolder=historical soilId=%s fcode=%s plotNr=10001 Altitude=73 Latitude=52.6 poligonID=1 "
-            "CropFileFormat=%s AutoIrrigation=0 AutoFertilization=0 AutoSowingHarvest=0 AutoHarvest=0 ManagementEvents=1 "
+            "CropFileFormat=%s AutoIrrigation=0 AutoFertilization=0 AutoSowingHarvest=0 AutoHarvest=0 %s"
             "OutputIntervall=0 Dateformat=%d StartYear=%d EndDate=%s AnnualOutputDate=%s %sresultfolder=%s"
-            % (name, case["soil"], case["fcode"], "txt" if case["crop_fmt"] == "txt" else "csv", f, case["begin"].year, fmt_date(case["end"], f), annual,
+            % (name, case["soil"], case["fcode"], "txt" if case["crop_fmt"] == "txt" else "csv",
+               {"1": "ManagementEvents=1 ", "0": "ManagementEvents=0 ", "absent": ""}[case["me"]] +
+               (("parameter=%s " % case["param"]) if case.get("param") else "") + (("vsession=%s " % case["vsession"]) if case.get("vsession") else ""),
+               f, case["begin"].year, fmt_date(case["end"], f), annual,
                ("Fertilization=%d " % case["fertilization"]) if case["fert_from"] == "line" else "", os.path.join(ex, "R", name)), case["sweep"])
 
 
@@ -427,6 +432,32 @@ def _run(ctx):
     n = 4000 if ctx.thorough else 44
     specials = ["f18", "pp-fert", "pp-till", "pre-till", "pre-irr"]
     cases = [make_case(rnd, i, table, specials[i - n] if i >= n else None) for i in range(n + len(specials))]
+    # two runs in ONE session with different parameter folders whose FERTILIZ.TXT differ, in both orders
+    alt = os.path.join(ex, "parameter_alt")
+    if not os.path.isdir(alt):
+        shutil.copytree(os.path.join(ex, "parameter"), alt)
+        out = []
+        for i, ln in enumerate(open(os.path.join(alt, "FERTILIZ.TXT")).read().split("\n")):
+            t = ln.split()
+            if i == 0 or len(t) < 7:
+                out.append(ln); continue
+            v = [float(x) for x in t[1:7]]
+            v = [v[0] * 1.5 + 0.1, max(0.0, min(1.0, 0.9 - v[1] * 0.5)), min(1.0, v[2] * 0.5 + 0.1), min(1.0, v[3] * 0.5 + 0.2), min(1.0, 0.3 + v[4] * 0.4), min(0.5, v[5] + 0.05)]
+            out.append("%-3s %05.2f %.2f %.2f %.2f %.2f %.2f %s" % (t[0], v[0], v[1], v[2], v[3], v[4], v[5], " ".join(t[7:])))
+        open(os.path.join(alt, "FERTILIZ.TXT"), "w").write("\n".join(out))
+    alt_table = read_table(os.path.join(alt, "FERTILIZ.TXT"))
+    npairs = 40 if ctx.thorough else 3
+    for j in range(npairs):
+        a = make_case(rnd, len(cases), table); b = make_case(rnd, len(cases) + 1, table)
+        first_alt = j % 2 == 0
+        for cs_, is_alt in ((a, first_alt), (b, not first_alt)):
+            cs_["vsession"] = "s%d" % j
+            cs_["me"] = "1"
+            if is_alt:
+                cs_["param"], cs_["table"] = "parameter_alt", alt_table
+            if not [1 for d, _, _ in cs_["fert"] if cs_["B"] <= d < cs_["E"] - 5]:
+                cs_["fert"] = sorted(cs_["fert"] + [(cs_["B"] + 40 + 30 * i_, str(50 + 25 * i_), nm_) for i_, nm_ in enumerate(["KAS", "RM", "SG"])])
+        cases += [a, b]
     lines = [write_project(ex, c) for c in cases]
     lf = os.path.join(ctx.work, "c10_lines.txt")
     open(lf, "w").write("\n".join(lines) + "\n")
@@ -560,10 +591,16 @@ def correspond(ctx):
     tab = "Definition tab : list (frow float) := %s." % _table_coq(table)
     items = []
     shard = 16 if ctx.thorough else 4
-    for k in range(0, len(good), shard):
-        body = HDR + [tab, "Definition cases : list c10_run := [\n%s\n]." % ";\n".join(_coq_run(cs, slots) for cs in good[k:k + shard]),
-                      "Definition M := Eval vm_compute in mismatches (c10_check tab) %d%%nat cases." % k, "Print M."]
-        items.append(("Cases_C10_%d" % (k // shard), "\n".join(body) + "\n"))
+    # cases are evaluated against the fertiliser table of THEIR parameter folder
+    good = [cs for cs in good if not cs.get("table")] + [cs for cs in good if cs.get("table")]
+    nd = len([cs for cs in good if not cs.get("table")])
+    for lo, hi, tb in ((0, nd, table), (nd, len(good), good[nd]["table"] if nd < len(good) else table)):
+        tabdef = "Definition tab : list (frow float) := %s." % _table_coq(tb)
+        for k in range(lo, hi, shard):
+            body = HDR + [tabdef, "Definition cases : list c10_run := [\n%s\n]." % ";\n".join(_coq_run(cs, slots) for cs in good[k:min(k + shard, hi)]),
+                          "Definition M := Eval vm_compute in mismatches (c10_check tab) %d%%nat cases." % k, "Print M."]
+            items.append(("Cases_C10_%d" % len(items), "\n".join(body) + "\n"))
+    c.dist["runs sharing a session with another parameter folder"] = len(good) - nd
     # dueng kernel
     rc2, drecs, _, _, err2 = waterlib.run_harness(ctx, "c10dueng", ["-root", ex, "-seed", str(ctx.seed), "-per", "12" if ctx.thorough else "5"])
     if rc2 != 0:
@@ -703,11 +740,27 @@ def oracle(ctx, search):
                               irr=[(str(numday(d)), mm, cz) for d, mm, cz in cs["irr"]],
                               crops=[(c_, str(s), str(h)) for c_, s, h in cs["crops"]], **kw))
         run = cs["run"]
-        if run is None or not run["success"] or cs["log"] is None:
+        if run is None or not run["success"] or (cs["log"] is None and cs["me"] == "1"):
             fail("run", "the run failed or wrote no management log: %s" % ((run or {}).get("err")))
             continue
         f = cs["fmt"]
-        exp = _expected(cs, table)
+        exp = _expected(cs, cs.get("table") or table)
+        if cs["me"] != "1":
+            # management event output off (or not configured): the events are judged on the cursors and state jumps of the probe
+            checked += 1
+            if cs["log"] is not None:
+                fail("run", "a management log was written although ManagementEvents is %s" % cs["me"])
+            for kind, ek in (("fertilization", "fert"), ("tillage", "till"), ("irrigation", "irr"), ("harvest", "harv")):
+                want = [z for (z, k, p) in exp if k == kind]
+                got = [e["zeit"] for e in cs["ev"] if e["kind"] == ek for _ in range(max(1, e["adv"]))]
+                if want != got:
+                    fail(kind + "-firing", "%s (management output off): carried out on days %s, the schedule demands %s"
+                         % (kind, [str(numday(z)) for z in got][:10], [str(numday(z)) for z in want][:10]))
+            for (z, p), e in zip([(z, p) for (z, k, p) in exp if k == "irrigation"], [e for e in cs["ev"] if e["kind"] == "irr"]):
+                rj = go_hex(e["regen_post"]) - go_hex(e["regen_pre"])
+                if e["zeit"] == z and not _close(rj, p["mm"] / 10.0):
+                    fail("irrigation-water", "day %d: rain of the day rose by %r cm, file gives %r mm" % (z, rj, p["mm"]))
+            continue
         # parse the log
         obs = []
         for ln in cs["log"]:
